@@ -27,10 +27,15 @@ PROP = {'engine': 'c15',
          '(a supervisor turns a death into crash:<panic>@<first repository frame> with the logged window of inputs and restarts behind it), '
          'after every input an honest request is still answered (status round trip / probe frame / chain lock taken) within a 30 s '
          'watchdog, goroutine population back at baseline after the remote left (classes by innermost repository function), '
-         'runtime.MemStats.TotalAlloc delta per input <= 2*MaxPackageLength + 32*bytes_sent + 1 MiB',
+         'runtime.MemStats.TotalAlloc delta per input <= units*2*MaxPackageLength + 32*(bytes_sent + bytes_the_node_wrote_back) + 1 MiB '
+         '(units = frames / messages of the input), and <= 2*MaxPackageLength + 1 MiB in the seconds after the remote left. A fixed '
+         'regression list (one witness per defect found on the unchanged tree, plus the 1 GiB / 4 GiB-1 handshake lengths and two '
+         '10300-message cache overflows) runs in every tier and for every seed',
  'assumptions': ['the scripted transport of surface c models p2p.Peer towards the manager (blocking ReadMsg, per-write deadline, idempotent Close '
                  'ending in a DeletePeer event); its write deadlines run 20x faster than the real ones',
-                 'allocation is measured for the whole worker process (one input at a time); the harness\'s own buffers are covered by the 32x factor',
+                 'allocation is measured for the whole worker process (one input at a time, harness buffers built before the measurement starts); '
+                 'bytes the node writes back on request count like bytes received, i.e. request/response amplification (a 7-byte GetBlocks '
+                 'answered with megabytes, a GetConfirms decoding a whole block) is recorded as amplification buckets, not judged',
                  'a delayed crash (block cache timer, spawned goroutines) is attributed to the window of at most 32 inputs the node received '
                  'since its monitors last found it healthy; the replay re-executes the window on a fresh fixture node',
                  'expiration times of transactions sent to handleTxsMsg are relative to the wall clock at execution (the handler compares with time.Now)',
